@@ -22,7 +22,10 @@ func classify(v *report.Violation) {
 	// nexus.Client: two subscribers whose FNV-1a hash selects the same host offset get the same address.
 	case strings.HasPrefix(v.Part, "nexus.Client[") && v.Kind == "duplicate" && v.Site == "AllocateIPForSubscriber" && has("[cause=hash-collision "):
 		v.Class = "C01-nexus-hash-collision"
-	case strings.HasPrefix(v.Part, "sched:nexus"):
+	// PoolAllocator has no lock of its own: Allocate = IPAllocator.Allocate then store.SaveAllocation,
+	// Release = IPAllocator.Release then store.RemoveAllocation; the two pairs interleave.
+	case strings.HasPrefix(v.Part, "sched:allocator.PoolAllocator[") && v.Kind == "query" && v.Site == "store.GetByPool" && allocVsReleaseSameSub(v.Trace):
+		v.Class = "C01-poolalloc-allocate-release-race"
 	}
 }
 
@@ -48,4 +51,27 @@ func failedReask(tr []string) bool {
 		}
 	}
 	return held
+}
+
+// allocVsReleaseSameSub: the scenario runs A:x and R:x for the same subscriber on different threads.
+func allocVsReleaseSameSub(tr []string) bool {
+	if len(tr) < 2 || !strings.HasPrefix(tr[1], "threads=") {
+		return false
+	}
+	ths := strings.Split(strings.Trim(strings.TrimPrefix(tr[1], "threads="), "[]"), "] [")
+	for i, a := range ths {
+		for j, b := range ths {
+			if i == j {
+				continue
+			}
+			for _, oa := range strings.Fields(a) {
+				for _, ob := range strings.Fields(b) {
+					if strings.HasPrefix(oa, "A:") && strings.HasPrefix(ob, "R:") && oa[2:] == ob[2:] {
+						return true
+					}
+				}
+			}
+		}
+	}
+	return false
 }
